@@ -47,6 +47,7 @@ type fWorld struct {
 	ruleTexts []string // network rule texts, for request generators
 	hostNames []string // names occurring in hosts-style lines
 	domains   []string // pool domains mentioned anywhere in the lists
+	docSites  []string // hosts covered by a document-level exception with cosmetic modifiers
 }
 
 var fHostIPs = []string{"0.0.0.0", "127.0.0.1", "::", "::1", "10.1.2.3", "2001:db8::5"}
@@ -146,6 +147,29 @@ func fGenWorld(r *rng, maxLines int, fileMode int) *fWorld {
 			}
 			w.domains = append(w.domains, h, h, h)
 			w.hostNames = append(w.hostNames, h)
+		}
+		if r.chance(1, 4) {
+			// a rule the parser accepts but regexp.Compile rejects (look-ahead): Match marks it invalid on first use
+			d := pick(r, poolDomains)
+			line := "/^https?:\\/\\/(?!www\\.)" + strings.ReplaceAll(d, ".", "\\.") + "/"
+			if sb.Len() > 0 && !strings.HasSuffix(sb.String(), "\n") {
+				sb.WriteString("\n")
+			}
+			sb.WriteString(line + "\n")
+			w.ruleTexts = append(w.ruleTexts, line)
+			w.domains = append(w.domains, d)
+		}
+		if r.chance(1, 3) {
+			// a referrer covered by a document-level exception with cosmetic modifiers, and nothing for the
+			// pages it requests: the verdict then falls back to the document rule
+			h := "docsite" + fmt.Sprint(li) + ".example.net"
+			line := "@@||" + h + "^$" + pick(r, []string{"document", "urlblock,elemhide", "genericblock,jsinject", "urlblock,generichide"})
+			if sb.Len() > 0 && !strings.HasSuffix(sb.String(), "\n") {
+				sb.WriteString("\n")
+			}
+			sb.WriteString(line + "\n")
+			w.ruleTexts = append(w.ruleTexts, line)
+			w.docSites = append(w.docSites, h)
 		}
 		file := fileMode == 1 || (fileMode == 2 && r.chance(1, 2))
 		w.specs = append(w.specs, fListSpec{id: ids[li], text: sb.String(), file: file})
@@ -446,6 +470,9 @@ func fGenQueryPool(r *rng, w *fWorld, n int) (qs []*fQuery) {
 			}
 		case k < 7:
 			q := genWebRequest(r, w.ruleTexts)
+			if len(w.docSites) > 0 && r.chance(1, 3) {
+				q = rules.NewRequest("http://norules.example.net/page"+fmt.Sprint(r.n(3)), "http://"+pick(r, w.docSites)+"/index.html", pick(r, poolReqTypes))
+			}
 			if len(w.domains) > 0 && r.chance(1, 3) {
 				q = rules.NewRequest(pick(r, poolSchemes)+"://"+pick(r, w.domains)+pick(r, poolPaths), genSourceURL(r), pick(r, poolReqTypes))
 			}
@@ -492,8 +519,19 @@ func (g *fEngines) answer(q *fQuery) (ans string, obj any) {
 		return fSerDNS(res, matched), res
 	case "web":
 		m := g.e.MatchRequest(q.web)
+		// evaluating derived results (verdict, cosmetic option) must not alter the result object, and the
+		// cosmetic option must not depend on whether the verdict was evaluated first
+		raw := fSerMatchingRaw(m)
+		optFirst := uint32(m.GetCosmeticOption())
+		ser := fSerMatching(m)
+		law := ""
+		if after := fSerMatchingRaw(m); after != raw {
+			law = " " + fLawMarker + " result object changed by GetBasicResult/GetCosmeticOption: " + raw + " -> " + after
+		} else if optAfter := uint32(m.GetCosmeticOption()); optAfter != optFirst {
+			law = fmt.Sprintf(" %s cosmetic option %d before and %d after GetBasicResult", fLawMarker, optFirst, optAfter)
+		}
 
-		return fSerMatching(m), m
+		return ser + law, m
 	case "all":
 		rs := g.n.MatchAll(q.web)
 		first := fNetKeys(rs)
